@@ -153,12 +153,73 @@ def _masked_message_call(n):
     return False
 
 
+def _simple_message_value(v):
+    """a message text: str constant, f-string / .format / % over names, attributes and constants only (no other calls)"""
+    def simple(e):
+        if isinstance(e, ast.Constant):
+            return True
+        if isinstance(e, ast.Name):
+            return True
+        if isinstance(e, ast.Attribute):
+            return simple(e.value)
+        if isinstance(e, ast.FormattedValue):
+            return simple(e.value) and (e.format_spec is None or simple(e.format_spec))
+        if isinstance(e, ast.JoinedStr):
+            return all(simple(x) for x in e.values)
+        if isinstance(e, (ast.Tuple,)):
+            return all(simple(x) for x in e.elts)
+        return False
+    if isinstance(v, ast.Constant) and isinstance(v.value, str):
+        return True
+    if isinstance(v, ast.JoinedStr):
+        return simple(v)
+    if isinstance(v, ast.Call) and isinstance(v.func, ast.Attribute) and v.func.attr == 'format' and _simple_message_value(v.func.value):
+        return all(simple(a) for a in v.args) and all(simple(k.value) for k in v.keywords)
+    if isinstance(v, ast.BinOp) and isinstance(v.op, ast.Mod) and _simple_message_value(v.left):
+        return simple(v.right)
+    if isinstance(v, ast.BinOp) and isinstance(v.op, ast.Add):
+        return _simple_message_value(v.left) and _simple_message_value(v.right)
+    return False
+
+
+def _message_only_names(fn):
+    """locals assigned exactly once, to a message text, and read only as the message of `raise Exc(name)` / warnings.warn(name, ...) /
+    LOGGER.<level>(name, ...): binding the text to a local before raising is the same as writing it inline (the key masks messages)"""
+    assigns, loads, ok_loads = {}, {}, {}
+    for n in ast.walk(fn):
+        if isinstance(n, ast.Assign) and len(n.targets) == 1 and isinstance(n.targets[0], ast.Name):
+            assigns.setdefault(n.targets[0].id, []).append(n)
+        elif isinstance(n, ast.Name) and isinstance(n.ctx, ast.Load):
+            loads[n.id] = loads.get(n.id, 0) + 1
+        if isinstance(n, ast.Raise) and isinstance(n.exc, ast.Call) and not n.exc.keywords:
+            for a in n.exc.args:
+                if isinstance(a, ast.Name):
+                    ok_loads[a.id] = ok_loads.get(a.id, 0) + 1
+        if _masked_message_call(n) and n.args and isinstance(n.args[0], ast.Name):
+            ok_loads[n.args[0].id] = ok_loads.get(n.args[0].id, 0) + 1
+    stores = {}
+    for n in ast.walk(fn):
+        if isinstance(n, ast.Name) and isinstance(n.ctx, (ast.Store, ast.Del)):
+            stores[n.id] = stores.get(n.id, 0) + 1
+    out = set()
+    for name, lst in assigns.items():
+        if len(lst) == 1 and stores.get(name, 0) == 1 and _simple_message_value(lst[0].value) \
+                and loads.get(name, 0) >= 1 and loads.get(name, 0) == ok_loads.get(name, 0) and name not in _params(fn):
+            out.add(name)
+    return out
+
+
 def alpha_key(fn):
     """(key, names): key = hashable structure of the function with bound names abstracted to indices; names = the bound names in order
     of first occurrence.  Raises NotNormalisable for functions the layer does not touch."""
     index = {}       # (scope id, name) -> int
     names = []
     out = []
+    msg_only = _message_only_names(fn) if isinstance(fn, (ast.FunctionDef, ast.AsyncFunctionDef)) else set()
+
+    def keep(stmts):
+        return [s_ for s_ in stmts if not (isinstance(s_, ast.Assign) and len(s_.targets) == 1 and isinstance(s_.targets[0], ast.Name)
+                                            and s_.targets[0].id in msg_only)]
 
     def binding(scopes, name):
         for sid, bound in reversed(scopes):
@@ -196,7 +257,7 @@ def alpha_key(fn):
             visit(d, scopes_outer)
 
     def visit_body(body, scopes):
-        body = _strip_doc(body)
+        body = keep(_strip_doc(body))
         out.append(('body', len(body)))
         for s in body:
             visit(s, scopes)
@@ -244,8 +305,9 @@ def alpha_key(fn):
                 visit(n.type, scopes)
             if n.name:
                 emit_name(scopes, n.name)
-            out.append(('body', len(n.body)))
-            for s in n.body:
+            hb = keep(n.body)
+            out.append(('body', len(hb)))
+            for s in hb:
                 visit(s, scopes)
             return
         if isinstance(n, (ast.Import, ast.ImportFrom)):
@@ -290,6 +352,8 @@ def alpha_key(fn):
             if field in ('lineno', 'col_offset', 'end_lineno', 'end_col_offset', 'type_comment', 'ctx', 'kind'):
                 continue
             if isinstance(value, list):
+                if value and isinstance(value[0], ast.stmt):
+                    value = keep(value)
                 out.append((field, len(value)))
                 for v in value:
                     if isinstance(v, ast.AST):
